@@ -632,7 +632,11 @@ func (t *tableExporter) add(val value.Value) (bool, error) {
 			}
 			col++
 			if col <= t.ex.maxListSize {
-				err := t.ex.toTD(t.st, t.format(t.row, col, item))
+				formatted, err := t.format(t.row, col, item)
+				if err != nil {
+					return false, err
+				}
+				err = t.ex.toTD(t.st, formatted)
 				if err != nil {
 					return false, err
 				}
@@ -654,9 +658,9 @@ func (t *tableExporter) close() {
 	t.ex.w.Close()
 }
 
-func (t *tableExporter) format(row, col int, item value.Value) value.Value {
+func (t *tableExporter) format(row, col int, item value.Value) (value.Value, error) {
 	if t.tableFormat == nil {
-		return item
+		return item, nil
 	}
 	var format value.Value
 	if v, ok := t.tableFormat.Get("r" + strconv.Itoa(row) + "c" + strconv.Itoa(col)); ok {
@@ -669,21 +673,17 @@ func (t *tableExporter) format(row, col int, item value.Value) value.Value {
 		format = v
 	}
 	if format == nil {
-		return item
+		return item, nil
 	}
 
 	if cl, ok := format.(value.Closure); ok {
 		if cl.Args == 1 {
-			if res, err := cl.Eval(t.st, item); err == nil {
-				return res
-			}
+			return cl.Eval(t.st, item)
 		} else if cl.Args == 3 {
-			if res, err := cl.EvalSt(t.st, value.Int(row), value.Int(col), item); err == nil {
-				return res
-			}
+			return cl.EvalSt(t.st, value.Int(row), value.Int(col), item)
 		}
 	}
-	return Format{Value: item, Format: format, Cell: true}
+	return Format{Value: item, Format: format, Cell: true}, nil
 }
 
 func (ex *htmlExporter) toTD(st funcGen.Stack[value.Value], d value.Value) error {
